@@ -409,3 +409,29 @@ Proof.
   - eexists. split; [vm_compute; reflexivity|]. split; vm_compute; reflexivity.
 Qed.
 Print Assumptions C03_glue_example.
+
+(** Peek liveness at the end of the stream and after a reset (the cases left open in round 3):
+    with nothing latched, a known final size, a request that reaches beyond it, and every byte up
+    to the final size there, Peek does not park; without a reset it returns the rest with io.EOF. *)
+Theorem C03_peek_live_end : forall S w ops r n s' d e bug,
+  0 <= w < MaxBC -> Forall rvalid ops -> rsrun S (rrun_init w) ops = Some r ->
+  0 < n -> PeekS (rr_st r) n = (s', d, e, bug) ->
+  latched (rr_st r) = false -> fc_final (rr_st r) = true -> finalOffset (rr_st r) < rpos (rr_st r) + n ->
+  (forall x, rpos (rr_st r) <= x < finalOffset (rr_st r) ->
+     x < rpos (rr_st r) + crest (rr_st r) \/ cov (queue (sorter (rr_st r))) x) ->
+  e <> EWouldBlock /\
+  (cancelledRemotely (rr_st r) = false -> e = EEOF /\ rpos (rr_st r) + len d = finalOffset (rr_st r)).
+Proof. exact recv_peek_live_end. Qed.
+Print Assumptions C03_peek_live_end.
+
+(** ... and after RESET_STREAM_AT: every byte below the reliable size there and a request that
+    reaches beyond it => Peek does not park. *)
+Theorem C03_peek_live_reset : forall S w ops r n s' d e bug,
+  0 <= w < MaxBC -> Forall rvalid ops -> rsrun S (rrun_init w) ops = Some r ->
+  0 < n -> PeekS (rr_st r) n = (s', d, e, bug) ->
+  latched (rr_st r) = false -> cancelledRemotely (rr_st r) = true -> reliableSize (rr_st r) < rpos (rr_st r) + n ->
+  (forall x, rpos (rr_st r) <= x < reliableSize (rr_st r) ->
+     x < rpos (rr_st r) + crest (rr_st r) \/ cov (queue (sorter (rr_st r))) x) ->
+  e <> EWouldBlock.
+Proof. exact recv_peek_live_reset. Qed.
+Print Assumptions C03_peek_live_reset.
